@@ -179,9 +179,21 @@ def recipes(rng, domains=("continuous", "integer", "binary"), thorough=False):
             out.append(("diagm", ("slice", vec, (0, 2, None)), -1.0, 1.0))
             out.append(("T", ("diagm", vec, None, None)))
             out.append(("diagonal", ("diagm", vec, None, None)))
-            for (r, c, sym) in ((2, 3, False), (3, 3, False), (3, 3, True), (1, 1, False), (2, 2, True)):
+            for (r, c, sym) in ((2, 3, False), (3, 3, False), (3, 3, True), (1, 1, False), (2, 2, True), (1, 3, False),
+                                (3, 1, False), (4, 3, False)):
                 m = ("mat", "A", r, c, lb, ub, dom, sym)
                 out += [m, ("T", m), ("T", ("T", m)), ("diagonal", m), ("diagf", m), ("diagonal", ("T", m))]
+                # transposes of blocks, blocks of transposes, strided / reversed blocks, views of views of views
+                out += [("T", ("T", ("T", m))), ("sub", ("T", m), (None, None, None), (0, 2, None)),
+                        ("sub", ("T", m), (None, None, -1), (None, None, None)),
+                        ("T", ("sub", ("T", m), (0, 2, None), (None, None, None))),
+                        ("sub", m, (None, None, 2), (None, None, 2)), ("T", ("sub", m, (None, None, 2), (None, None, -1))),
+                        ("sub", ("sub", m, (None, None, -1), (None, None, None)), (0, 2, None), (None, None, -1)),
+                        ("row", ("T", ("sub", m, (0, 2, None), (None, None, None))), -1, (None, None, -1)),
+                        ("col", ("T", ("T", m)), (None, None, 2), -1),
+                        ("slice", ("col", ("T", m), (None, None, None), 0), (None, None, -1)),
+                        ("slice", ("slice", ("row", m, 0, (None, None, None)), (None, None, -1)), (None, None, 2)),
+                        ("diagonal", ("sub", m, (0, min(r, c), None), (0, min(r, c), None)))]
                 for i in (0, r - 1, -1, r):
                     out.append(("row", m, i, (None, None, None)))
                     out.append(("row", ("T", m), 0, (1, None, None)))
@@ -246,6 +258,70 @@ def handle_elements(h):
     return [h]
 
 
+def ref_names(r):
+    """the element NAMES a handle must expose, position by position, computed with NumPy indexing on string arrays
+    (independent of optyx's containers).  None = this recipe is outside the reference (diag_matrix labels)."""
+    k = r[0]
+    if k == "var":
+        return np.array(r[1], dtype=object)
+    if k == "vec":
+        return np.array([f"{r[1]}[{i}]" for i in range(r[2])], dtype=object)
+    if k == "mat":
+        sym = r[7]
+        return np.array([[f"{r[1]}[{min(i, j)},{max(i, j)}]" if sym else f"{r[1]}[{i},{j}]" for j in range(r[3])]
+                         for i in range(r[2])], dtype=object).reshape(r[2], r[3])
+    b = ref_names(r[1])
+    if b is None:
+        return None
+    if k == "slice":
+        return b[slice(*r[2])]
+    if k == "vget":
+        return b[r[2]]
+    if k == "T":
+        return b.T
+    if k == "mget":
+        return b[r[2], r[3]]
+    if k == "row":
+        return b[r[2], slice(*r[3])]
+    if k == "col":
+        return b[slice(*r[2]), r[3]]
+    if k == "sub":
+        return b[slice(*r[2]), slice(*r[3])]
+    if k in ("diagonal", "diagf"):
+        return np.array([b[i, i] for i in range(b.shape[0])], dtype=object)
+    return None
+
+
+def accessor_channels(s, h, vals, r):
+    """every way of reading the same numbers: s[h], s.get(h), s.get(h, default), h.to_numpy(values) — and the
+    NumPy reference layout of names.  -> list of disagreements"""
+    from optyx import MatrixVariable, VectorVariable
+
+    out = []
+    got = s[h]
+    g2 = s.get(h)
+    if not np.array_equal(np.asarray(got, dtype=float), np.asarray(g2, dtype=float)):
+        out.append("Solution.get(handle) differs from Solution[handle]")
+    if isinstance(h, (VectorVariable, MatrixVariable)):
+        g3 = h.to_numpy(dict(vals))
+        if not np.array_equal(np.asarray(got, dtype=float), np.asarray(g3, dtype=float)) or np.shape(g3) != np.shape(got):
+            out.append("handle.to_numpy(values) differs from Solution[handle]")
+    try:
+        names = ref_names(r)
+    except (IndexError, ValueError):
+        names = None
+        out.append("the handle was built although NumPy indexing of the same recipe is invalid")
+    if names is not None:
+        names = np.asarray(names, dtype=object)
+        want = (np.vectorize(lambda n: vals[n], otypes=[float])(names) if names.size else np.zeros(names.shape)) \
+            if names.shape != () else np.float64(vals[str(names)])
+        if np.shape(want) != np.shape(got) or not np.array_equal(np.asarray(want, dtype=float), np.asarray(got, dtype=float)):
+            out.append(f"Solution[handle] differs from the NumPy reference layout {names.tolist()}")
+        if names.size == 0:
+            out.append("an empty view was built (NumPy gives an empty selection)")
+    return out
+
+
 def getitem_cases(rep, rng, recs):
     """Solution(values)[handle] through the real code vs the model and vs the property itself"""
     from optyx import MatrixVariable, VectorVariable
@@ -278,13 +354,18 @@ def getitem_cases(rep, rng, recs):
             else:
                 text = rat(float(got))
                 ok = got == vals[h.name]
-            if not ok:
-                rep.oracle_failures.append({"what": "Solution[handle] differs from values[element.name] / wrong shape",
+            chan = accessor_channels(s, h, vals, r)
+            if not ok or chan:
+                rep.oracle_failures.append({"what": "; ".join((["Solution[handle] differs from values[element.name] / wrong shape"]
+                                                               if not ok else []) + chan)[:400],
                                             "kind_of_case": "getitem", "recipe": r, "values": vals, "got": text})
         except KeyError:
             text = "raise:KeyError"
             if all(v.name in vals for v in elems):
                 rep.oracle_failures.append({"what": "Solution[handle] raised KeyError although every element has a value",
+                                            "kind_of_case": "getitem", "recipe": r, "values": vals})
+            elif s.get(h, "absent") != "absent" or s.get(h) is not None:
+                rep.oracle_failures.append({"what": "Solution.get(handle, default) does not return the default for a missing value",
                                             "kind_of_case": "getitem", "recipe": r, "values": vals})
         vt = " ".join(f"({qs(k)} {rat(v)})" for k, v in vals.items())
         lines.append(f"getitem ({vt}) {recipe_text(r)}")
@@ -620,6 +701,269 @@ def run_start_points(rep, rng, thorough):
             rep.oracle_failures.append(bad)
 
 
+# ----------------------------------------------------------------------------- objective forms × types × magnitudes
+
+ARRAY_KINDS = ["float64", "list", "int64", "float32", "strided", "reversed", "fortran-col", "int8", "tuple"]
+SCALAR_KINDS = ["float", "int", "np.float64", "np.float32", "np.int64", "0-d", "bool"]
+OBJ_FORMS = ["c@(x+d)", "c@x+d", "-(c@x)+d", "2*(x.sum())+d", "(c@x)/2+d", "d-x.sum()", "-(x.sum())-d", "c@(d-x)",
+             "c@x+exp0*d", "c@x+p", "p*(x.sum())+d", "c@x+0*x0+x0**0", "c@x[::-1]+d", "x[::2].sum()+d", "x[1:].sum()-d",
+             "M.sum()+d", "S.sum()+d", "trace(S)+d", "M[0,:].sum()+d", "M.T[:,0].sum()-d", "c@M.diagonal()+d",
+             "deep-450", "c@x+quad"]
+
+
+def typed_array(vals, kind):
+    a = np.array(vals, dtype=float)
+    if kind == "list":
+        return [float(v) for v in vals]
+    if kind == "tuple":
+        return tuple(float(v) for v in vals)
+    if kind == "int64":
+        return np.array(vals, dtype=np.int64)
+    if kind == "int8":
+        return np.array(vals, dtype=np.int8)
+    if kind == "float32":
+        return np.array(vals, dtype=np.float32)
+    if kind == "strided":
+        big = np.zeros(2 * len(vals)); big[::2] = a
+        return big[::2]
+    if kind == "reversed":
+        return a[::-1].copy()[::-1]
+    if kind == "fortran-col":
+        return np.asfortranarray(np.column_stack([a, a + 1.0]))[:, 0]
+    return a
+
+
+def typed_scalar(v, kind):
+    return {"float": float, "int": lambda t: int(t), "np.float64": np.float64, "np.float32": np.float32,
+            "np.int64": lambda t: np.int64(int(t)), "0-d": lambda t: np.array(float(t)), "bool": lambda t: bool(t)}[kind](v)
+
+
+def objective_case(data):
+    """-> (problem, truth(values) -> float, [(array handed to optyx, pristine copy)])"""
+    from optyx import MatrixVariable, Parameter, Problem, VectorVariable
+    from optyx.core.expressions import Constant
+    from optyx.core.functions import exp
+
+    n, form = data["n"], data["form"]
+    integral = data["akind"] in ("int64", "int8") or data["skind"] in ("int", "np.int64", "bool")
+    cv = [float(int(v)) for v in data["c"]] if data["akind"] in ("int64", "int8") else list(data["c"])
+    dv = float(bool(data["d"])) if data["skind"] == "bool" else float(int(data["d"])) if data["skind"] in ("int", "np.int64") else float(data["d"])
+    if data["skind"] == "np.float32":
+        dv = float(np.float32(dv))
+    if data["akind"] == "float32":
+        cv = [float(np.float32(v)) for v in cv]
+    c = typed_array(cv, data["akind"])
+    d = typed_scalar(dv, data["skind"])
+    keep = [(c, np.array(c, dtype=float).copy())] if isinstance(c, np.ndarray) else []
+    x = VectorVariable("x", n, lb=data["lb"], ub=data["ub"])
+    M = MatrixVariable("M", 2, 2, lb=-1.0, ub=2.0)
+    S = MatrixVariable("S", 2, 2, lb=-1.0, ub=2.0, symmetric=True)
+    p = Parameter("p", data["p"])
+    xs = lambda v: [v.get(f"x[{i}]", float("nan")) for i in range(n)]  # noqa: E731  (views use a subset)
+    dot = lambda a, b: sum(ai * bi for ai, bi in zip(a, b))  # noqa: E731
+    forms = {
+        "c@(x+d)": (lambda: c @ (x + d), lambda v: dot(cv, [t + dv for t in xs(v)])),
+        "c@x+d": (lambda: c @ x + d, lambda v: dot(cv, xs(v)) + dv),
+        "-(c@x)+d": (lambda: -(c @ x) + d, lambda v: -dot(cv, xs(v)) + dv),
+        "2*(x.sum())+d": (lambda: 2 * (x.sum()) + d, lambda v: 2 * sum(xs(v)) + dv),
+        "(c@x)/2+d": (lambda: (c @ x) / 2 + d, lambda v: dot(cv, xs(v)) / 2 + dv),
+        "d-x.sum()": (lambda: d - x.sum(), lambda v: dv - sum(xs(v))),
+        "-(x.sum())-d": (lambda: -(x.sum()) - d, lambda v: -sum(xs(v)) - dv),
+        "c@(d-x)": (lambda: c @ (d - x), lambda v: dot(cv, [dv - t for t in xs(v)])),
+        "c@x+exp0*d": (lambda: c @ x + exp(Constant(0.0)) * d, lambda v: dot(cv, xs(v)) + dv),
+        "c@x+p": (lambda: c @ x + p, lambda v: dot(cv, xs(v)) + float(p.value)),
+        "p*(x.sum())+d": (lambda: p * (x.sum()) + d, lambda v: float(p.value) * sum(xs(v)) + dv),
+        "c@x+0*x0+x0**0": (lambda: c @ x + 0 * x[0] + x[0] ** 0, lambda v: dot(cv, xs(v)) + 1.0),
+        "c@x[::-1]+d": (lambda: c @ x[::-1] + d, lambda v: dot(cv, xs(v)[::-1]) + dv),
+        "x[::2].sum()+d": (lambda: x[::2].sum() + d, lambda v: sum(xs(v)[::2]) + dv),
+        "x[1:].sum()-d": (lambda: x[1:].sum() - d, lambda v: sum(xs(v)[1:]) - dv),
+        "M.sum()+d": (lambda: M.sum() + d, lambda v: sum(v[f"M[{i},{j}]"] for i in range(2) for j in range(2)) + dv),
+        "S.sum()+d": (lambda: S.sum() + d, lambda v: v["S[0,0]"] + 2 * v["S[0,1]"] + v["S[1,1]"] + dv),
+        "trace(S)+d": (lambda: S.trace() + d, lambda v: v["S[0,0]"] + v["S[1,1]"] + dv),
+        "M[0,:].sum()+d": (lambda: M[0, :].sum() + d, lambda v: v["M[0,0]"] + v["M[0,1]"] + dv),
+        "M.T[:,0].sum()-d": (lambda: M.T[:, 0].sum() - d, lambda v: v["M[0,0]"] + v["M[0,1]"] - dv),
+        "c@M.diagonal()+d": (lambda: np.array(cv[:2]) @ M.diagonal() + d, lambda v: cv[0] * v["M[0,0]"] + cv[1] * v["M[1,1]"] + dv),
+        "c@x+quad": (lambda: c @ x + d + (x[0] - 0.25) ** 2, lambda v: dot(cv, xs(v)) + dv + (v["x[0]"] - 0.25) ** 2),
+    }
+    if form == "deep-450":
+        e = x[0] * 1.0
+        for i in range(450):
+            e = e + cv[i % n] * x[i % n] + 0.25
+        truth = lambda v: v["x[0]"] + sum(cv[i % n] * v[f"x[{i % n}]"] + 0.25 for i in range(450))  # noqa: E731
+    else:
+        build, truth = forms[form]
+        e = build()
+    P = Problem()
+    P.minimize(e) if data["sense"] == "min" else P.maximize(e)
+    return P, truth, keep, p
+
+
+def objective_check(data):
+    try:
+        P, truth, keep, p = objective_case(data)
+    except Exception as e:  # noqa: BLE001 - an operand type the API refuses is not a C07 matter
+        return None, "unbuildable:" + type(e).__name__
+    with warnings.catch_warnings(), np.errstate(all="ignore"):
+        warnings.simplefilter("ignore")
+        try:
+            sol = P.solve(method=data["method"])
+        except Exception as e:  # noqa: BLE001
+            return None, "raise:" + type(e).__name__
+    for arr, copy in keep:
+        if not np.array_equal(np.asarray(arr, dtype=float), copy):
+            return {"what": "a user-supplied array was modified by the solve", "now": np.asarray(arr).tolist(),
+                    "before": copy.tolist()}, sol.status.name
+    if not sol.values or sol.objective_value is None:
+        return None, sol.status.name
+    if list(sol.values) != [v.name for v in P.variables]:
+        return {"what": "keys of values differ from the problem's variable names", "keys": list(sol.values)}, sol.status.name
+    vals = sol.values
+    if not all(math.isfinite(t) for t in vals.values()):
+        return None, sol.status.name + ":nonfinite"
+    ind = float(truth(vals))
+    want = float(P.objective.evaluate(vals))
+    scale = 1.0 + abs(ind) + abs(float(data["d"])) * (1 + sum(abs(t) for t in data["c"])) + sum(
+        abs(t) for t in data["c"]) * (1 + max(abs(t) for t in vals.values()))
+    if abs(ind - sol.objective_value) > 1e-8 * scale or abs(want - sol.objective_value) > 1e-8 * scale:
+        return {"what": "objective_value differs from the objective at the reported values",
+                "objective_value": sol.objective_value, "independent": ind, "objective.evaluate(values)": want,
+                "values": dict(vals), "status": sol.status.name}, sol.status.name
+    return None, sol.status.name
+
+
+def run_objective_forms(rep, rng, thorough):
+    """objective shape (wrappers around reduction roots, constant-valued sub-expressions, parameters, views, matrices,
+    symmetric matrices, a 450-term chain) × array type × scalar type × magnitude of the constant × sense × method"""
+    mags = [0.0, 1.0, -3.0, 2.5, 1e-12, -1e-9, 1e-7, 1e8, -1e16, 123456.0]
+    methods = LP_ALL_METHODS + ["SLSQP", "L-BFGS-B"]
+    i = 0
+    for form in OBJ_FORMS:
+        for rep_i in range(80 if thorough else 20):
+            i += 1
+            n = rng.randint(2, 4)
+            akind = ARRAY_KINDS[i % len(ARRAY_KINDS)]
+            skind = SCALAR_KINDS[(i // 2) % len(SCALAR_KINDS)]
+            d = mags[(i // 3) % len(mags)]
+            if skind in ("int", "np.int64", "bool") and abs(d) < 1.0 and d != 0.0:
+                d = 7.0
+            data = {"form": form, "n": n, "c": [rng.choice([1.0, 2.0, -1.0, 0.5, 3.0, -2.0, 100.0]) for _ in range(n)], "d": d,
+                    "akind": akind, "skind": skind, "p": rng.choice([0.0, 1.0, -2.0, 0.5]),
+                    "lb": rng.choice([0.0, -1.0]), "ub": rng.choice([2.0, 3.0]), "sense": "max" if i % 2 else "min",
+                    "method": methods[(i // 2) % len(methods)] if form not in ("c@x+quad",) else ["auto", "SLSQP", "L-BFGS-B", "trust-constr"][i % 4]}
+            bad, status = objective_check(data)
+            rep.evaluations += 1
+            tag = f"objform:{form}:{status}"
+            rep.histogram[tag] = rep.histogram.get(tag, 0) + 1
+            rep.histogram[f"objform-types:{akind}/{skind}"] = rep.histogram.get(f"objform-types:{akind}/{skind}", 0) + 1
+            if status == "OPTIMAL":
+                rep.nontrivial.add(hash(("objform", str(data))))
+            if bad is not None:
+                bad.update({"kind_of_case": "objform", "data": data})
+                rep.oracle_failures.append(bad)
+
+
+# ----------------------------------------------------------------------------- histories on one problem
+
+
+def value_history(data):
+    """one Problem object through a history of solves, parameter updates, bound edits and sense flips of the SAME
+    objective expression object; after every solve the reported objective value must be the user's objective in its
+    current orientation, at the current parameter values, at the reported values.  -> (failure | None, n solves)"""
+    from optyx import Parameter, Problem, VectorVariable
+
+    n = data["n"]
+    x = VectorVariable(data["name"], n, lb=-2.0, ub=3.0)
+    p, q = Parameter("p", data["p0"]), Parameter("q", data["q0"])
+    c = np.array(data["c"])
+    e = p * (c @ x) + q + 1.5
+    if data["quadratic"]:
+        e = e + data["a"] * (x[0] - 0.5) ** 2
+    P = Problem()
+    sense = "min"
+    P.minimize(e)
+    P.subject_to(x.sum() <= data["cap"])
+    solves = 0
+    for op in data["ops"]:
+        if op[0] == "set":
+            (p if op[1] == "p" else q).set(op[2])
+        elif op[0] == "flip":
+            sense = "max" if sense == "min" else "min"
+            P.maximize(e) if sense == "max" else P.minimize(e)
+        elif op[0] == "bound":
+            v = x[op[1] % n]
+            if op[2] == "ub":
+                v.ub = op[3]
+            else:
+                v.lb = op[3]
+        elif op[0] == "rebuild":
+            # drop the model and rebuild one with the same names and different numbers
+            x = VectorVariable(data["name"], n, lb=-2.0, ub=3.0)
+            c = c[::-1].copy()
+            e = p * (c @ x) + q + op[1]
+            P = Problem()
+            P.minimize(e) if sense == "min" else P.maximize(e)
+            P.subject_to(x.sum() <= data["cap"])
+            data = dict(data, quadratic=False, rebuilt_const=op[1])
+        else:
+            with warnings.catch_warnings(), np.errstate(all="ignore"):
+                warnings.simplefilter("ignore")
+                try:
+                    sol = P.solve(method=op[1])
+                except Exception:  # noqa: BLE001 - e.g. NonLinearError for an LP method on the quadratic variant
+                    continue
+            solves += 1
+            if not sol.values or sol.objective_value is None:
+                continue
+            xs = [sol.values.get(f"{data['name']}[{i}]") for i in range(n)]
+            if list(sol.values) != [v.name for v in P.variables] or any(t is None for t in xs):
+                return {"what": "keys of values differ from the problem's variable names", "keys": list(sol.values)}, solves
+            const = data.get("rebuilt_const", 1.5)
+            ind = float(p.value) * sum(ci * xi for ci, xi in zip(c, xs)) + float(q.value) + const
+            if data["quadratic"]:
+                ind += data["a"] * (xs[0] - 0.5) ** 2
+            scale = 1.0 + abs(ind) + abs(float(p.value)) * sum(abs(ci) * 3.0 for ci in c) + abs(float(q.value))
+            want = float(P.objective.evaluate(sol.values))
+            if abs(ind - sol.objective_value) > 1e-7 * scale or abs(want - sol.objective_value) > 1e-7 * scale:
+                return {"what": "objective_value differs from the objective (current sense, current parameters) at the reported values",
+                        "objective_value": sol.objective_value, "independent": ind, "objective.evaluate(values)": want,
+                        "p": float(p.value), "q": float(q.value), "sense": sense, "after": op, "values": dict(sol.values)}, solves
+            # a sense flip must flip the optimum: the maximiser of a linear objective over a box is not its minimiser
+    return None, solves
+
+
+def run_value_histories(rep, rng, thorough):
+    lp = ["auto", "linprog", "highs", "highs-ds", "highs-ipm"]
+    nlp = ["SLSQP", "trust-constr", "L-BFGS-B", "auto"]
+    for i in range(400 if thorough else 60):
+        quadratic = i % 3 == 0
+        methods = (nlp if quadratic else lp + ["SLSQP", "L-BFGS-B"])
+        ops = []
+        for _ in range(rng.randint(4, 9)):
+            r = rng.random()
+            if r < 0.4:
+                ops.append(["solve", rng.choice(methods)])
+            elif r < 0.6:
+                ops.append(["set", rng.choice(["p", "q"]), rng.choice([0.0, 1.0, -1.0, 2.5, -0.5, 1e-9, 1e8])])
+            elif r < 0.75:
+                ops.append(["flip"])
+            elif r < 0.9:
+                ops.append(["bound", rng.randint(0, 3), rng.choice(["lb", "ub"]), rng.choice([0.0, 1.0, -1.0, 2.0])])
+            else:
+                ops.append(["rebuild", rng.choice([0.0, -4.0, 7.25])])
+        ops.append(["solve", rng.choice(methods)])
+        data = {"n": rng.randint(2, 4), "name": rng.choice(["x", "x1", "w10"]), "c": [rng.choice([1.0, -2.0, 0.5, 3.0]) for _ in range(4)],
+                "p0": rng.choice([1.0, 2.0, -1.0]), "q0": rng.choice([0.0, 5.0, -2.5]), "a": rng.choice([1.0, 2.0]),
+                "cap": rng.choice([2.0, 4.0]), "quadratic": quadratic, "ops": ops}
+        data["c"] = data["c"][:data["n"]]
+        bad, solves = value_history(data)
+        rep.evaluations += solves
+        rep.histogram["history-solves"] = rep.histogram.get("history-solves", 0) + solves
+        rep.nontrivial.add(hash(("hist", str(data))))
+        if bad is not None:
+            bad.update({"kind_of_case": "history", "data": data})
+            rep.oracle_failures.append(bad)
+
+
 def vm_case(data):
     """one problem written with vector / matrix handles; -> (status, list of failed look-up checks)"""
     from optyx import MatrixVariable, Problem, VectorVariable
@@ -701,6 +1045,8 @@ def run(ctx) -> core.Report:
     getitem_cases(rep, rng, recs)
     rep.exhaustive = True
     run_lp_root_forms(rep, rng, thorough)
+    run_objective_forms(rep, rng, thorough)
+    run_value_histories(rep, rng, thorough)
     run_start_points(rep, rng, thorough)
     base.run_real_solves(rep, rng, 1500 if thorough else 120, check_consistent)
     vector_matrix_solves(rep, rng, 300 if thorough else 30)
@@ -712,6 +1058,20 @@ def run(ctx) -> core.Report:
 def search(ctx, rep):
     rng = core.Rng(ctx["seed"] + 15485863)
     r2 = core.Report()
+    # first: the mismatching cases themselves as oracle checks — a handle whose description / look-up differs is read
+    # through every accessor at many value sets against the NumPy reference layout
+    def _tup(x):
+        return tuple(_tup(y) for y in x) if isinstance(x, (list, tuple)) else x
+    todo = []
+    for m in rep.corr_mismatches:
+        c = m.get("case", {})
+        rcp = c.get("handle") or c.get("getitem")
+        if rcp is not None and _tup(rcp) not in todo:
+            todo.append(_tup(rcp))
+    if todo:
+        getitem_cases(r2, rng, [r for r in todo[:60] for _ in range(8)])
+        if r2.oracle_failures:
+            return r2.oracle_failures[0]
     metas = base.run_stub_table(r2, rng, True)
     stub_consistency(r2, metas)
     stub_consistency(r2, run_lp_contract_table(r2))
@@ -772,6 +1132,14 @@ def replay(payload) -> bool:
         print(got)
         els = handle_elements(h)
         return list(np.asarray(got, dtype=float).ravel()) == [f["values"][v.name] for v in els]
+    if kind == "history":
+        bad, _ = value_history(f["data"])
+        print(bad)
+        return bad is None
+    if kind == "objform":
+        bad, status = objective_check(f["data"])
+        print(status, bad)
+        return bad is None
     if kind == "start":
         bad, tag = start_case(f["data"])
         print(tag, bad)
